@@ -228,7 +228,9 @@ func genRename(prop string, seed uint64, run int, tier string) *Scenario {
 	if sc.Cfg.Lagfree {
 		nt = 1
 	}
-	type tok struct{ at string }
+	if nt > 1 && g.chance(0.6) {
+		sc.Cfg.Reorder = 1 + g.r.Intn(4)
+	}
 	var scripts [][]Op
 	id := 0
 	for t := 0; t < nt; t++ {
@@ -469,6 +471,12 @@ func genMulti(prop string, seed uint64, run int, tier string) *Scenario {
 	var w []Op
 	for k := 3 + g.r.Intn(20); k > 0; k-- {
 		w = append(w, g.worldOp([]string{"m", "m2"}, []int{0, 1, 2}, defaultWorld)...)
+	}
+	if !sc.Cfg.Lagfree && g.chance(0.15) {
+		for i, n := 0, 70+g.r.Intn(200); i < n; i++ {
+			w = append(w, Op{K: OpCreate, P: fmt.Sprintf("m/burst%d", i)})
+		}
+		sc.Cfg.MaxSteps = 90000
 	}
 	if sc.Cfg.Lagfree {
 		sc.Tasks = []TaskScript{{Name: "seq", Role: "world", Ops: w}}
